@@ -326,6 +326,10 @@ func propC33(c *Check) {
 	// lets an expired newest version hide the older ones (the look-ahead is unconditional)
 	ruleR15_4(c)
 	ruleR05_5(c)
+	// an expired newest version keeps hiding the older ones: after crash recovery (replay puts it
+	// back like any other entry) and in Stream.ToList (which stops at it)
+	ruleR16_6(c)
+	ruleR25_4(c)
 }
 
 // ---- C28 ----
